@@ -16,7 +16,7 @@ def run(R):
     thorough = R.tier == "thorough"
     R.build_all(sorted({v for v, _ in CFGS}))
     files = []
-    seeds = [R.seed] if not thorough else [R.seed, R.seed + 1, R.seed + 2]
+    seeds = [R.seed] if not thorough else [R.seed + j for j in range(8)]
     for s in seeds:
         for i, (variant, env) in enumerate(CFGS):
             exe = R.cc("stream_driver", ["stream_driver.c"], variant, extra=["-Wno-deprecated-declarations"])
